@@ -246,7 +246,7 @@ impl TypeInfoImpl {
                 quote! {
                     .variant(#v_name, |v|
                         v
-                            .index(#index as ::core::primitive::u8)
+                            .index((#index) as ::core::primitive::u8)
                             #fields
                             #docs
                     )
